@@ -623,6 +623,7 @@ class Interp:
         if len(args) > len(pos_names):
             if vararg:
                 env[vararg] = ListV(args[len(pos_names):])
+                env[vararg].is_tuple = True
             else:
                 raise _RaisedExc(Raised('TypeError', fn))
         extra = {}
@@ -639,6 +640,7 @@ class Interp:
             env[kwarg] = DictV(extra)
         if vararg and vararg not in env:
             env[vararg] = ListV([])
+            env[vararg].is_tuple = True
         for n_ in names:
             if n_ not in env:
                 if preset is not None and n_ in preset:
@@ -737,6 +739,8 @@ class Interp:
         """a modelled library function; every keyword argument must be one the model reads (or is listed as having no
         influence), otherwise the construct is outside what is modelled"""
         h = self.native[name]
+        if any(is_iter(a) for a in args) and not name.startswith(('itertools.', 'functools.', 'more_itertools.')):
+            args = drain(args)
         if not kwargs or NATIVE_KW_IGNORED.get(name, ()) is None:
             return h(self, fr, args, kwargs, n)
         kw = KwSeen(kwargs)
@@ -940,14 +944,30 @@ class Interp:
             if kind == 'lit':
                 out = out + a
                 continue
-            if a.isdigit():
-                if int(a) >= len(args):
+            head = re.match(r'[^.\[]*', a).group(0)
+            rest = a[len(head):]
+            if head.isdigit():
+                if int(head) >= len(args):
                     raise _RaisedExc(Raised('IndexError'))
-                v = args[int(a)]
+                v = args[int(head)]
             else:
-                if a not in kwargs:
+                if head not in kwargs:
                     raise _RaisedExc(Raised('KeyError'))
-                v = kwargs[a]
+                v = kwargs[head]
+            # '{0.name}', '{specie.cat_site.name}', '{row[key]}': attribute and item lookups on the argument
+            while rest:
+                m_ = re.match(r'\.([A-Za-z_]\w*)|\[([^\]]+)\]', rest)
+                if not m_:
+                    raise _RaisedExc(Raised('ValueError'))
+                fr_ = Frame(self, next(iter(self.repo.modules.values())), {}, None, None)
+                if m_.group(1) is not None:
+                    if not isinstance(v, Obj):
+                        raise Unsupported('attribute lookup in a format field on %r' % (v,))
+                    v = fr_.obj_attr(v, m_.group(1))
+                else:
+                    k_ = m_.group(2)
+                    v = fr_.getitem(v, C(int(k_)) if k_.isdigit() else k_)
+                rest = rest[m_.end():]
             if '{' in spec:
                 # a format spec computed from other arguments ('{:0{w}d}'): the nested fields are filled in first
                 for mm in re.finditer(r'\{([^{}]*)\}', spec):
@@ -1000,7 +1020,17 @@ class Interp:
         self.n_objects += 1
         o = Obj(name or '%s#%d' % (ci.name, self.n_objects), ci, closed=True)
         o.interp = self             # the interpreter the object lives in (rules read public attributes through it)
+        for k_ in ci.mro:
+            for d_ in k_.decorators:
+                if d_.split('(')[0].split('.')[-1] not in ('dataclass', 'total_ordering', 'final', 'runtime_checkable'):
+                    # a class decorator replaces the class by what it returns (methods wrapped, attributes added)
+                    raise Unsupported('class decorator @%s on %s' % (d_, k_.qual))
         got = self.repo.find_method(ci, '__init__', missing_ok=True)
+        def is_dc(k_):
+            return any(d.split('(')[0].split('.')[-1] == 'dataclass' for d in k_.decorators) or \
+                any(b_.split('.')[-1] == 'NamedTuple' for b_ in k_.base_exprs)
+        if got and any(is_dc(k_) for k_ in ci.mro[:ci.mro.index(got[0])]):
+            got = None              # a dataclass below the class that defines __init__: the generated __init__ wins
         if got:
             r = self.call_function(got[0].module, got[1], args, kwargs, self_obj=o, owner=got[0],
                                    name=got[0].qual + '.__init__')
@@ -1043,8 +1073,24 @@ class Interp:
             return obj.opaque_methods[mname](self, obj, args, kwargs)
         if obj.ci is None:
             raise Unsupported('method %s on opaque object %s' % (mname, obj.name))
-        owner, fn = self.repo.find_method(obj.ci, mname, after=after)
-        return self.call_function(owner.module, fn, args, kwargs, self_obj=obj, owner=owner,
+        got = self.repo.find_method(obj.ci, mname, after=after, missing_ok=True)
+        if got is None:
+            # not defined in the package: a base class from a library (json.JSONEncoder ...) whose method has a model
+            for k_ in obj.ci.mro:
+                for b_ in k_.base_exprs:
+                    head, _, tail = b_.partition('.')
+                    al = k_.module.aliases.get(head)
+                    full = None
+                    if al and al[0] == 'module':
+                        full = al[1] + ('.' + tail if tail else '')
+                    elif al and al[0] == 'object' and not tail:
+                        full = al[1] + '.' + al[2]
+                    if full and '%s.%s' % (full, mname) in self.native:
+                        return self.call_native('%s.%s' % (full, mname), None, [obj] + list(args), kwargs, None)
+            got = self.repo.find_method(obj.ci, mname, after=after)         # raises the anchor error
+        owner, fn = got
+        static = any(ast.unparse(d) == 'staticmethod' for d in fn.decorator_list)
+        return self.call_function(owner.module, fn, args, kwargs, self_obj=None if static else obj, owner=owner,
                                   name='%s.%s' % (owner.qual, mname))
 
     # ------------------------------------------------------------------
@@ -1061,6 +1107,8 @@ class Interp:
         raise Unsupported('not a number: %r' % (v,))
 
     def binop(self, op, a, b):
+        if op == '|' and isinstance(a, ReFlags) and isinstance(b, ReFlags):
+            return ReFlags(a.value | b.value)
         if op in ('|', '&', '^') and isinstance(a, bool) and isinstance(b, bool):
             return {'|': a or b, '&': a and b, '^': a != b}[op]     # also reached element by element for arrays
         if op == '@':
@@ -1103,7 +1151,13 @@ class Interp:
         if isinstance(a, ListV) or isinstance(b, ListV):
             if isinstance(a, ListV) and isinstance(b, ListV):
                 if op == '+' and not getattr(a, 'is_array', False) and not getattr(b, 'is_array', False):
-                    return ListV(a.items + b.items)
+                    ta, tb = bool(getattr(a, 'is_tuple', False)), bool(getattr(b, 'is_tuple', False))
+                    if ta != tb:
+                        raise _RaisedExc(Raised('TypeError'))       # can only concatenate list to list, tuple to tuple
+                    r_ = ListV(a.items + b.items)
+                    if ta:
+                        r_.is_tuple = True
+                    return r_
                 a_nested = bool(a.items) and all(isinstance(x, ListV) for x in a.items)
                 b_nested = bool(b.items) and all(isinstance(y, ListV) for y in b.items)
                 a_flat = not any(isinstance(x, ListV) for x in a.items)
@@ -1274,9 +1328,11 @@ class Interp:
             if isinstance(a, TypeOf) and isinstance(b, Builtin):
                 v = a.v
                 num_kind = self.number_type(v, node) if isinstance(v, Rat) and b.name in ('float', 'int') else None
-                res = {'list': isinstance(v, ListV) and not getattr(v, 'is_array', False),
+                res = {'list': isinstance(v, ListV) and not getattr(v, 'is_array', False) and
+                       not getattr(v, 'is_tuple', False),
                        'str': isinstance(v, str), 'dict': isinstance(v, DictV),
-                       'float': num_kind == 'float', 'int': num_kind == 'int', 'tuple': False,
+                       'float': num_kind == 'float', 'int': num_kind == 'int',
+                       'tuple': isinstance(v, ListV) and bool(getattr(v, 'is_tuple', False)),
                        'bool': isinstance(v, bool)}.get(b.name)
                 if res is None:
                     raise Unsupported('type() test against %s' % b.name)
@@ -1562,8 +1618,18 @@ class Frame:
                 cur.r = res.r
                 return
             if isinstance(cur, ListV) and isinstance(res, ListV) and \
-                    isinstance(st.target, (ast.Name, ast.Attribute)) and not getattr(cur, 'is_set', False):
+                    isinstance(st.target, (ast.Name, ast.Attribute)) and not getattr(cur, 'is_set', False) and \
+                    not getattr(cur, 'is_tuple', False):
                 # lists and numpy arrays are updated in place: every other name bound to the object sees it
+                if getattr(cur, 'is_array', False) and getattr(cur, 'dtype', None) in ('int', 'caller', 'narrow') and \
+                        not any(isinstance(x_, ListV) for x_ in res.items):
+                    # an in-place operation keeps the element type of the array: a real result does not fit into an
+                    # integer array (numpy refuses the cast), into a caller-typed one it may not
+                    hz0 = len(I.dtype_hazards)
+                    self.int_store(cur, list(res.items), st)
+                    if cur.dtype == 'int' and len(I.dtype_hazards) > hz0:
+                        del I.dtype_hazards[hz0:]
+                        raise _RaisedExc(Raised('TypeError', st))       # UFuncTypeError: cannot cast ... to int64
                 cur.items[:] = list(res.items)
                 sync_reshape(cur)
                 view = getattr(cur, 'view_of', None)
@@ -1676,7 +1742,10 @@ class Frame:
             return
         if isinstance(st, ast.AnnAssign):
             if st.value is not None:
-                self.assign(st.target, self.ev(st.value))
+                if I.table_atoms is not None and isinstance(st.value, ast.Dict) and isinstance(st.target, ast.Name):
+                    self.assign(st.target, self.table_dict(st.target.id, st.value))       # as a plain assignment
+                else:
+                    self.assign(st.target, self.ev(st.value))
             return
         if isinstance(st, (ast.FunctionDef,)):
             # nested function: a closure over this frame's scope; defaults are evaluated now
@@ -2033,6 +2102,8 @@ class Frame:
         if isinstance(target, ast.Subscript) and isinstance(target.slice, ast.Slice) and not (
                 target.slice.lower is None and target.slice.upper is None and target.slice.step is None):
             base = self.ev(target.value)
+            if isinstance(base, ListV) and getattr(base, 'is_tuple', False):
+                raise _RaisedExc(Raised('TypeError', target))
             if isinstance(base, ListV):
                 def bound(e):
                     if e is None:
@@ -2066,6 +2137,8 @@ class Frame:
         if isinstance(target, ast.Subscript):
             base = self.ev(target.value)
             idx = self.ev(target.slice)
+            if isinstance(base, ListV) and getattr(base, 'is_tuple', False):
+                raise _RaisedExc(Raised('TypeError', target))       # 'tuple' object does not support item assignment
             if isinstance(base, ListV) and isinstance(idx, ListV) and getattr(idx, 'is_array', False) and \
                     idx.items and all(isinstance(x, bool) for x in idx.items):
                 # a[mask] = value: the positions where the boolean array is True along the first axis
@@ -2148,6 +2221,12 @@ class Frame:
                     got = I.repo.find_method(base.ci, target.attr + '.setter', missing_ok=True)
                     if got:
                         I.call_function(got[0].module, got[1], [v], {}, self_obj=base, owner=got[0])
+                        return
+                    mp = self.made_property(base, target.attr, target)
+                    if mp is not None:
+                        if mp[1] is None:
+                            raise _RaisedExc(Raised('AttributeError', target))      # property without a setter
+                        self.apply(mp[1], [v], {}, target)
                         return
                 base.attrs[target.attr] = v
                 base.writes.append(target.attr)
@@ -2334,7 +2413,10 @@ class Frame:
                     out_.extend(self.iter_items(self.ev(e.value), e))       # [*a, b]
                 else:
                     out_.append(self.ev(e))
-            return ListV(out_)
+            r_ = ListV(out_)
+            if isinstance(n, ast.Tuple):
+                r_.is_tuple = True          # immutable: no item assignment, no append / sort / ...
+            return r_
         if isinstance(n, ast.Dict):
             dv = DictV()
             for k, v in zip(n.keys, n.values):
@@ -2561,6 +2643,8 @@ class Frame:
                     raise Unsupported('symbolic slice', n, self.module.relpath)
                 r = ListV(base.items[ci(lo):ci(hi):ci(stp)])
                 r.is_array = getattr(base, 'is_array', False)
+                if getattr(base, 'is_tuple', False):
+                    r.is_tuple = True
                 if r.is_array and not any(isinstance(x, ListV) for x in r.items):
                     # a basic slice of an array is a view of it (a slice of a list is a copy)
                     pos = list(range(*slice(ci(lo), ci(hi), ci(stp)).indices(len(base.items))))
@@ -2743,6 +2827,8 @@ class Frame:
             raise Unsupported('name of the type of %r' % (v_,), n, self.module.relpath)
         if isinstance(base, ClassInfo) and n.attr in ('__name__', '__qualname__'):
             return base.name
+        if isinstance(base, ClassInfo) and n.attr == '__module__':
+            return base.module.name
         if isinstance(base, ListV) and n.attr == 'T':
             if not any(isinstance(x, ListV) for x in base.items):
                 return base                 # the transpose of a 1-D array is the array itself
@@ -2801,14 +2887,77 @@ class Frame:
             return base.fn.name
         raise Unsupported('attribute %s of %r' % (n.attr, base), n, self.module.relpath)
 
+    def dict_view(self, obj, node=None):
+        """obj.__dict__ / vars(obj): the live attribute table (a write through it is a write to the object)"""
+        if obj.ci is not None and any('__slots__' in k.class_attrs for k in obj.ci.mro):
+            raise Unsupported('__dict__ of an object whose class uses __slots__', node, self.module.relpath)
+        dv = DictV()
+        dv.d = obj.attrs
+        return dv
+
+    def class_descriptor(self, ci, attr):
+        """a class attribute of that name which is bound to the result of a call (``x = property(f, g)``, a descriptor
+        made by a factory): (owner class, call node) or None"""
+        for k in ci.mro:
+            if attr in k.methods:
+                return None
+            if attr in k.class_attrs:
+                v = k.class_attrs[attr]
+                return (k, v) if isinstance(v, ast.Call) else None
+        return None
+
+    def made_property(self, obj, attr, node):
+        """(getter, setter) FuncRefs of a class attribute written ``name = property(fget[, fset])``; any other call in
+        that place may be a descriptor, whose protocol is not modelled"""
+        got = self.class_descriptor(obj.ci, attr) if obj.ci is not None else None
+        if got is None:
+            return None
+        k, call = got
+        kw_ = {x.arg: x.value for x in call.keywords}
+        if isinstance(call.func, ast.Name) and call.func.id == 'property' and \
+                set(kw_) <= {'fget', 'fset', 'fdel', 'doc'} and len(call.args) <= 4:
+            slots = list(call.args[:2]) + [None] * (2 - len(call.args[:2]))
+            for i_, nm_ in enumerate(('fget', 'fset')):
+                if nm_ in kw_:
+                    slots[i_] = kw_[nm_]
+            if slots[0] is None:
+                raise Unsupported('property() without a getter', node, self.module.relpath)
+            fns = []
+            for a_ in [x for x in slots if x is not None and not (isinstance(x, ast.Constant) and x.value is None)]:
+                if not (isinstance(a_, ast.Name) and a_.id in k.methods):
+                    raise Unsupported('property() of something that is not a method of the class', node,
+                                      self.module.relpath)
+                fns.append(FuncRef(k.module, k.methods[a_.id], obj, k))
+            return fns[0], (fns[1] if len(fns) > 1 else None)
+        v_ = None
+        key = (k.qual, attr)
+        if key not in self.I.module_globals:
+            self.I.module_globals[key] = Frame(self.I, k.module, {}, k, None).ev(call)
+        v_ = self.I.module_globals[key]
+        if isinstance(v_, Obj) and v_.ci is not None and (
+                self.I.repo.find_method(v_.ci, '__get__', missing_ok=True) or
+                self.I.repo.find_method(v_.ci, '__set__', missing_ok=True)):
+            raise Unsupported('attribute %s is a descriptor object (the descriptor protocol is not modelled)' % attr,
+                              node, self.module.relpath)
+        return None
+
     def obj_attr(self, obj, attr, node=None):
         I = self.I
         if attr == '__class__' and obj.ci is not None:
             return obj.ci
         if attr == '__dict__':
-            return DictV(dict(obj.attrs))
+            return self.dict_view(obj, node)
         if attr in obj.missing:
             raise _RaisedExc(Raised('AttributeError', node))
+        if obj.ci is not None and not attr.startswith('__'):
+            # a property is a data descriptor: it is asked before the instance's own attributes
+            got = I.repo.find_method(obj.ci, attr, missing_ok=True)
+            if got and any(ast.unparse(d) == 'property' for d in got[1].decorator_list):
+                return I.call_function(got[0].module, got[1], [], {}, self_obj=obj, owner=got[0],
+                                       name='%s.%s' % (got[0].qual, attr))
+            mp = self.made_property(obj, attr, node)
+            if mp is not None:
+                return self.apply(mp[0], [], {}, node)
         if attr in obj.attrs:
             return obj.attrs[attr]
         if obj.ci is not None:
@@ -2830,8 +2979,6 @@ class Frame:
             return BoundOpaque(obj, attr)
         if attr == '__class__':
             return obj.ci
-        if attr == '__dict__':
-            return DictV(dict(obj.attrs))
         if obj.closed:
             if '__mode__' in obj.attrs and attr in FILE_METHODS:
                 # a method every text file has, without a model here: not an AttributeError Python would raise
@@ -2932,8 +3079,16 @@ class Frame:
                 v = self.ev(k.value)
                 if not isinstance(v, DictV):
                     raise Unsupported('**argument is not a dict', n, self.module.relpath)
+                for k_ in v.d:
+                    if k_ in kwargs:
+                        # f(**a, **b) / f(x=1, **b) with a name given twice: "got multiple values for keyword argument"
+                        raise _RaisedExc(Raised('TypeError', n))
+                    if not isinstance(k_, str):
+                        raise _RaisedExc(Raised('TypeError', n))        # keywords must be strings
                 kwargs.update(v.d)
             else:
+                if k.arg in kwargs:
+                    raise _RaisedExc(Raised('TypeError', n))
                 kwargs[k.arg] = self.ev(k.value)
         return args, kwargs
 
@@ -3252,7 +3407,21 @@ def _as_int(v, n=None):
     raise Unsupported('integer expected', n)
 
 
+LAZY_BUILTINS = frozenset(('next', 'iter', 'zip', 'enumerate', 'map', 'filter', 'isinstance', 'type', 'id', 'callable',
+                           'print', 'bool', 'hasattr', 'getattr', 'len', 'list', 'tuple', 'str', 'any', 'all'))
+
+
+def drain(args):
+    """a one-shot iterator (map / filter / generator object) handed to a function that runs over it is used up by the
+    call: the callee gets its remaining items, the iterator is empty afterwards"""
+    return [ListV(take(a)) if is_iter(a) else a for a in args]
+
+
 def builtin_call(I, fr, name, args, kwargs, n):
+    if name not in LAZY_BUILTINS and any(is_iter(a) for a in args):
+        args = drain(args)
+    if name == 'len' and args and is_iter(args[0]):
+        raise _RaisedExc(Raised('TypeError', n))        # an iterator has no len()
     if name in ('float', 'int') and args and (isinstance(args[0], SegStr) or
                                                (isinstance(args[0], str) and args[0] in I.sym_strings)):
         sv = I.seg(args[0]).strip()
@@ -3270,6 +3439,11 @@ def builtin_call(I, fr, name, args, kwargs, n):
         if f is None and sv.fields():
             I.cuts.append((n, '%s() of %r: the text is not exactly one number' % (name, sv)))
         raise _RaisedExc(Raised('ValueError', n))
+    if name == 'float' and len(args) == 1 and not kwargs and isinstance(args[0], str) and \
+            args[0] not in I.sym_strings and args[0].strip().lower().lstrip('+-') in ('inf', 'infinity'):
+        return I.neg(I.D.sym('INF')) if args[0].strip().startswith('-') else I.D.sym('INF')
+    if name in ('float', 'int') and not args and not kwargs:
+        return C(0)                     # int() / float(): zero (the factory of defaultdict(int))
     if name in ('float', 'int') and args and isinstance(args[0], str):
         if name == 'int' and not re.fullmatch(r'[+-]?\d+(?:_\d+)*', args[0].strip()):
             raise _RaisedExc(Raised('ValueError', n))      # int('1.5'), int('1e3'): not an integer literal
@@ -3284,8 +3458,17 @@ def builtin_call(I, fr, name, args, kwargs, n):
         if not isinstance(spec, str) or spec in I.sym_strings:
             raise Unsupported('format() with a symbolic format spec', n)
         return I.plain(I.format_piece(args[0], spec))          # format(v, spec) is '{:spec}'.format(v)
+    if name == 'setattr' and len(args) == 3 and not kwargs and isinstance(args[0], Obj):
+        if not isinstance(args[1], str) or args[1] in I.sym_strings:
+            raise Unsupported('setattr with a symbolic attribute name', n)
+        # setattr(obj, 'name', v) is obj.name = v (setters and __setattr__ included)
+        tgt = ast.Attribute(value=ast.Name(id='\x00setattr_obj', ctx=ast.Load()), attr=args[1], ctx=ast.Store())
+        ast.copy_location(tgt, n) if n is not None else None
+        sub = Frame(I, fr.module, Env(fr.env, {'\x00setattr_obj': args[0]}), fr.owner, fr.self_obj)
+        sub.assign(tgt, args[2])
+        return None
     if name == 'vars' and len(args) == 1 and isinstance(args[0], Obj) and not kwargs:
-        return fr.obj_attr(args[0], '__dict__', n)
+        return fr.dict_view(args[0], n)
     if name == 'round':
         v = args[0]
         if isinstance(v, Rat) and (v.is_const() or v.iszero()) and len(args) == 1:
@@ -3339,6 +3522,12 @@ def builtin_call(I, fr, name, args, kwargs, n):
         if len(args) != 1 or kwargs:
             raise Unsupported('%s() with a base or keyword arguments' % name, n)
         v = args[0]
+        if name == 'float' and isinstance(v, str) and v not in I.sym_strings and \
+                v.strip().lower().lstrip('+-') in ('inf', 'infinity', 'nan'):
+            t_ = v.strip().lower()
+            if 'nan' in t_:
+                raise Unsupported('float(%r)' % v, n)
+            return I.neg(I.D.sym('INF')) if t_.startswith('-') else I.D.sym('INF')
         while isinstance(v, ListV) and len(v) == 1:
             v = v.items[0]          # float() of a size-1 array is its element
         if isinstance(v, ListV):
@@ -3431,8 +3620,8 @@ def builtin_call(I, fr, name, args, kwargs, n):
             return v.opaque_methods['__len__'](I, v, [], {})
         if isinstance(v, Obj) and '__fields__' in v.attrs:
             return C(len(v.attrs['__fields__'].items))
-        if isinstance(v, Rat):
-            raise _RaisedExc(Raised('TypeError', n))
+        if isinstance(v, Rat) or v is None or isinstance(v, bool):
+            raise _RaisedExc(Raised('TypeError', n))        # object of that type has no len()
         raise Unsupported('len of %r' % (v,), n)
     if name == 'enumerate':
         start = _as_int(kwargs.get('start', args[1] if len(args) > 1 else C(0)), n)
@@ -3450,6 +3639,8 @@ def builtin_call(I, fr, name, args, kwargs, n):
             r_ = ListV(take(v))
             if getattr(v, 'np_int', False):
                 r_.np_int = True            # the entries are still numpy integers
+            if name == 'tuple':
+                r_.is_tuple = True
             return r_
         if isinstance(v, Elem):
             return v
@@ -3486,7 +3677,9 @@ def builtin_call(I, fr, name, args, kwargs, n):
             elif tn == 'dict':
                 res = res or isinstance(v, DictV)
             elif tn in ('list', 'tuple'):
-                res = res or (isinstance(v, ListV) and not getattr(v, 'is_array', False))
+                res = res or (isinstance(v, ListV) and not getattr(v, 'is_array', False) and
+                              not getattr(v, 'is_set', False) and
+                              bool(getattr(v, 'is_tuple', False)) == (tn == 'tuple'))
             elif tn == 'ndarray':
                 if isinstance(v, Elem):
                     raise Unsupported('isinstance(np.ndarray) of a vector that may be a list or an array', n)
@@ -3524,7 +3717,12 @@ def builtin_call(I, fr, name, args, kwargs, n):
                 res = res or isinstance(v, (Rat, bool)) or (isinstance(v, Obj) and 'Number' in v.isa)
             elif tn == 'bool':
                 res = res or isinstance(v, bool)
-            elif tn in ('set', 'frozenset', 'bytes', 'complex'):
+            elif tn == 'type':
+                res = res or isinstance(v, ClassInfo)        # a class of the package (library classes have no value here)
+            elif tn in ('set', 'frozenset'):
+                res = res or (isinstance(v, ListV) and bool(getattr(v, 'is_set', False)) and
+                              (tn == 'frozenset') == bool(getattr(v, 'frozen', False)))
+            elif tn in ('bytes', 'complex'):
                 pass            # no such values in the abstract domain
             else:
                 raise Unsupported('isinstance against %r' % (x,), n)
@@ -3609,19 +3807,27 @@ def builtin_call(I, fr, name, args, kwargs, n):
         seq = args[1]
         if isinstance(seq, Elem):
             return Elem(fr.apply(args[0], [seq.r], {}, n))
-        return ListV([fr.apply(args[0], [x], {}, n) for x in fr.iter_items(seq, n)])
+        r_ = ListV([fr.apply(args[0], [x], {}, n) for x in fr.iter_items(seq, n)])
+        r_.is_iterator = True           # a map object: what has been taken from it is gone
+        return r_
     if name == 'map' and len(args) > 2 and not kwargs:
         # map(f, a, b, ...): stops with the shortest argument (evaluated now; rules only see it consumed to the end)
         cols = [list(fr.iter_items(a_, n)) for a_ in args[1:]]
         if any(isinstance(a_, Elem) for a_ in args[1:]):
             raise Unsupported('map over several vectors of unknown length', n)
-        return ListV([fr.apply(args[0], list(row), {}, n) for row in zip(*cols)])
+        r_ = ListV([fr.apply(args[0], list(row), {}, n) for row in zip(*cols)])
+        r_.is_iterator = True
+        return r_
     if name == 'filter' and len(args) == 2:
         f_ = args[0]
-        return ListV([x for x in fr.iter_items(args[1], n)
-                      if I.truth(x if f_ is None else fr.apply(f_, [x], {}, n), n)])
+        r_ = ListV([x for x in fr.iter_items(args[1], n)
+                    if I.truth(x if f_ is None else fr.apply(f_, [x], {}, n), n)])
+        r_.is_iterator = True           # a filter object
+        return r_
     if name == 'reversed' and len(args) == 1:
-        return ListV(list(reversed(fr.iter_items(args[0], n))))
+        r_ = ListV(list(reversed(fr.iter_items(args[0], n))))
+        r_.is_iterator = True
+        return r_
     if name == 'callable' and len(args) == 1:
         return isinstance(args[0], (FuncRef, Builtin, NativeRef, BoundNative, ClassInfo)) or \
             type(args[0]).__name__ in ('BoundMethod', 'BoundOpaque', 'Lambda')
@@ -3785,7 +3991,14 @@ class TypeOf:
 ARRAY_METHOD_HOOK = None        # set by pmv.stdlib: methods of arrays / vectors / booleans
 
 
+TUPLE_METHODS = frozenset(dir(tuple))
+
+
 def bound_native(I, fr, bn, args, kwargs, n):
+    if any(is_iter(a) for a in args):
+        args = drain(args)              # list.extend(it), str.join(it), set.update(it) ... run over the iterator
+    if isinstance(bn.base, ListV) and getattr(bn.base, 'is_tuple', False) and bn.name not in TUPLE_METHODS:
+        raise _RaisedExc(Raised('AttributeError', n))      # a tuple has no append / extend / sort / ...
     b, name = bn.base, bn.name
     if ARRAY_METHOD_HOOK is not None:
         done, val = ARRAY_METHOD_HOOK(I, fr, b, name, args, kwargs, n)
@@ -3856,6 +4069,11 @@ def bound_native(I, fr, bn, args, kwargs, n):
         if name == 'copy':
             r = ListV(list(b.items))
             r.is_array = getattr(b, 'is_array', False)
+            if r.is_array:
+                # the copy of an array has the element type of the array (for an array the caller supplied: the caller's)
+                r.dtype = getattr(b, 'dtype', None)
+                if getattr(b, 'np_int', False):
+                    r.np_int = True
             return r
         if name in ('tolist', 'item') and not getattr(b, 'is_array', False):
             raise _RaisedExc(Raised('AttributeError', n))     # a plain list has no tolist()/item()
@@ -4218,6 +4436,18 @@ def _np_array(I, fr, args, kwargs, n):
             # an array made from Python ints holds numpy integers: list() / iteration of it hands out np.int64 values
             # (which e.g. the JSON encoder refuses), not the ints that went in
             r.np_int = True
+
+        def bare_leaves(x):
+            if isinstance(x, ListV):
+                return bool(x.items) and all(bare_leaves(y) for y in x.items)
+            if not (isinstance(x, Rat) and x.is_monomial() and len(x.atoms()) == 1):
+                return False
+            a_ = next(iter(x.atoms()))
+            return x.eq(Rat.atom(a_)) and a_ not in I.np_syms and not a_.startswith(('U<', 'ROOT#', 'REAL{'))
+        if tag is None and getattr(r, 'dtype', None) is None and not getattr(v, 'is_array', False) and bare_leaves(r):
+            # an array made from a list of numbers the caller supplied as they are: its element type is the caller's
+            # (whole numbers give an integer array, into which a real value does not fit)
+            r.dtype = 'caller'
         return r
     return v
 
@@ -4229,8 +4459,18 @@ def _np_asarray(I, fr, args, kwargs, n):
     tag = _dtype_tag(_arg(args, kwargs, 1, 'dtype', None))
     kwargs.get('copy')
     if isinstance(v, ListV) and getattr(v, 'is_array', False) and (
-            tag is None or (tag == 'float' and getattr(v, 'dtype', None) in (None, 'float', 'caller'))):
+            tag is None or (tag == 'float' and getattr(v, 'dtype', None) in (None, 'float'))):
         return v
+    if isinstance(v, ListV) and getattr(v, 'is_array', False) and tag == 'float' and \
+            getattr(v, 'dtype', None) == 'caller':
+        # an array of the caller asked for as float64: the very array when it is one already (what is stored into
+        # the result is stored into the argument), a converted copy otherwise - in both cases a float64 array. Modelled
+        # as an array that shares its entries with the argument and is typed float.
+        r = ListV([])
+        r.items = v.items
+        r.is_array = True
+        r.dtype = 'float'
+        return r
     return _np_array(I, fr, args, kwargs, n)
 
 
@@ -4606,7 +4846,14 @@ def _np_anyall(which):
     return h
 
 
-def _re_generic(kind):
+class ReFlags:
+    """a combination of re.IGNORECASE / VERBOSE / ... (kept as the integer the re module uses)"""
+
+    def __init__(self, value):
+        self.value = int(value)
+
+
+def _re_generic(kind, pre_flags=0):
     """re.<kind>(pattern literal, abstract string): see absre"""
     def h(I, fr, args, kwargs, n):
         from . import absre
@@ -4623,8 +4870,17 @@ def _re_generic(kind):
         if not isinstance(s_, (str, SegStr)):
             raise _RaisedExc(Raised('TypeError', n))
         sb = I.seg(s_)
-        flags = 0
+        flags = pre_flags
         maxsplit = 0
+        fpos = 3 if kind in ('split', 'sub') else 2
+        fl = args[fpos] if len(args) > fpos else kwargs.get('flags')
+        if fl is not None:
+            if isinstance(fl, ReFlags):
+                flags |= fl.value
+            elif isinstance(fl, Rat) and fl.iszero():
+                pass
+            else:
+                raise Unsupported('regular expression flags %r' % (fl,), n)
         if kind in ('split', 'sub'):
             ms = args[2] if len(args) > 2 else kwargs.get('maxsplit' if kind == 'split' else 'count', C(0))
             maxsplit = _as_int(ms, n)
@@ -4645,12 +4901,20 @@ def _re_generic(kind):
             groups = [lift(a, b) for a, b in spans]
             mo = Obj('match', closed=True)
 
+            def gidx(x):
+                if isinstance(x, str):
+                    gi = re.compile(pat, flags).groupindex
+                    if x not in gi:
+                        raise _RaisedExc(Raised('IndexError', n))       # no such group
+                    return gi[x]
+                return _as_int(x, n)
+
             def group(I_, o, a, k):
                 if not a:
                     return groups[0]
                 if len(a) == 1:
-                    return groups[_as_int(a[0], n)]
-                return ListV([groups[_as_int(x, n)] for x in a])
+                    return groups[gidx(a[0])]
+                return ListV([groups[gidx(x)] for x in a])
             mo.opaque_methods['group'] = group
             mo.opaque_methods['groups'] = lambda I_, o, a, k: ListV(groups[1:])
             mo.opaque_methods['start'] = lambda I_, o, a, k: C(spans[_as_int(a[0], n) if a else 0][0])
@@ -4658,6 +4922,10 @@ def _re_generic(kind):
             mo.opaque_methods['span'] = lambda I_, o, a, k: ListV([C(x) for x in
                                                                    spans[_as_int(a[0], n) if a else 0]])
             mo.pmv_getitem = lambda I_, fr_, idx, n_: group(I_, mo, [idx], {})        # match[g] is match.group(g)
+            names_ = dict(re.compile(pat, flags).groupindex)
+            mo.opaque_methods['groupdict'] = lambda I_, o, a, k: DictV(
+                {nm_: (groups[ix_] if groups[ix_] is not None else (a[0] if a else k.get('default')))
+                 for nm_, ix_ in names_.items()})
             return mo
         try:
             if kind == 'split':
@@ -5151,8 +5419,41 @@ def _np_append(I, fr, args, kwargs, n):
     raise Unsupported('np.append operands', n)
 
 
+def _json_encoder_default(I, fr, args, kwargs, n):
+    """json.JSONEncoder.default(self, o): the base implementation refuses every object"""
+    raise _RaisedExc(Raised('TypeError', n))
+
+
+def _np_hstack(I, fr, args, kwargs, n):
+    """np.hstack: 1-D arrays are joined end to end, 2-D arrays side by side (along axis 1)"""
+    if len(args) != 1 or kwargs:
+        raise Unsupported('np.hstack arguments', n)
+    seq = args[0]
+    if not isinstance(seq, ListV) or not seq.items:
+        raise Unsupported('np.hstack operand', n)
+    if all(isinstance(x, ListV) and x.items and all(isinstance(r_, ListV) for r_ in x.items) for x in seq.items):
+        rows = len(seq.items[0])
+        if any(len(x) != rows for x in seq.items):
+            raise _RaisedExc(Raised('ValueError', n))
+        out = ListV([])
+        for k_ in range(rows):
+            row = ListV([y for x in seq.items for y in x.items[k_].items])
+            row.is_array = True
+            out.items.append(row)
+        out.is_array = True
+        return out
+    return _np_concatenate(I, fr, args, kwargs, n)
+
+
 def _np_concatenate(I, fr, args, kwargs, n):
     seq = args[0]
+    axis = _arg(args, kwargs, 1, 'axis', C(0))
+    if not (isinstance(axis, Rat) and (axis.iszero() or (axis.is_const() and axis.const_value() == 0))):
+        if isinstance(axis, Rat) and axis.is_const() and axis.const_value() in (1, -1) and isinstance(seq, ListV) and \
+                all(isinstance(x, ListV) and x.items and all(isinstance(r_, ListV) for r_ in x.items)
+                    for x in seq.items):
+            return _np_hstack(I, fr, [seq], {}, n)
+        raise Unsupported('np.concatenate along axis %r' % (axis,), n)
     out = []
     if any(isinstance(x, Elem) for x in seq.items):
         return Elem(I.D.sym('concat(%s)' % ','.join(repr(x.r) if isinstance(x, Elem) else repr(x)
@@ -5265,7 +5566,7 @@ def _table_keys(I, fname):
         keys = None
         if fn is not None:
             for nd in ast.walk(fn):
-                if isinstance(nd, ast.Assign) and isinstance(nd.value, ast.Dict):
+                if isinstance(nd, (ast.Assign, ast.AnnAssign)) and isinstance(nd.value, ast.Dict):
                     keys = {k.value for k in nd.value.keys if isinstance(k, ast.Constant)}
         if keys is None and fn is not None:
             # the table may be written at module level and only read by the function
@@ -5569,11 +5870,19 @@ def _re_compile(I, fr, args, kwargs, n):
     pat = args[0]
     if not isinstance(pat, str) or pat in I.sym_strings:
         raise Unsupported('regular expression is not a literal', n)
+    fl = args[1] if len(args) > 1 else kwargs.get('flags')
+    cflags = 0
+    if isinstance(fl, ReFlags):
+        cflags = fl.value
+    elif fl is not None and not (isinstance(fl, Rat) and fl.iszero()):
+        raise Unsupported('regular expression flags %r' % (fl,), n)
     o = Obj('pattern', closed=True)
     o.attrs['pattern'] = pat
     for kind in ('search', 'match', 'fullmatch', 'findall', 'finditer', 'split', 'sub'):
         def meth(I_, ob, a, k, kind=kind):
-            return _re_generic(kind)(I_, fr, [pat] + list(a), k, n)
+            if k.get('flags') is not None:
+                raise Unsupported('flags given to a method of a compiled pattern', n)
+            return _re_generic(kind, cflags)(I_, fr, [pat] + list(a), k, n)
         o.opaque_methods[kind] = meth
     return o
 
@@ -5684,6 +5993,7 @@ NATIVE = {
     'numpy.zeros': _np_zeros(0),
     'numpy.ones': _np_zeros(1),
     'numpy.empty': _np_empty,
+    'json.JSONEncoder.default': _json_encoder_default,
     'logging.getLogger': _get_logger,
     'logging.debug': _log_call, 'logging.info': _log_call, 'logging.warning': _log_call, 'logging.error': _log_call,
     'logging.basicConfig': _log_call,
@@ -5778,6 +6088,8 @@ GLOBAL_ATTRS = {
     'numbers.Number': lambda I: Builtin('Number'),
     'numbers.Real': lambda I: Builtin('Number'),
     'numpy.pi': lambda I: I.D.sym('pi'),
+    **{'re.' + nm_: (lambda I, v_=int(getattr(re, nm_)): ReFlags(v_))
+       for nm_ in ('IGNORECASE', 'I', 'VERBOSE', 'X', 'MULTILINE', 'M', 'DOTALL', 'S', 'ASCII', 'A')},
     'numpy.inf': lambda I: I.D.sym('INF'),
     'numpy.double': lambda I: 'np.double',
     # abstract numpy scalar types: not the builtins (np.int64 is an np.integer and no int, a Python float no np.floating)
